@@ -625,7 +625,7 @@ func c17Stacked(c c17Case) string {
 	// disjunction_as_options / struct_fields_as_options / unfold_boolean get
 	// new names): once a builder has seen a name-producing rule, every later
 	// multiplicity-changing rule on that builder may hit a rewritten option.
-	renamed := map[string]string{}
+	renamed := map[string][]string{} // new name -> the names it may have been (a rename may select several options)
 	producedNames := map[string]string{}
 	for _, r := range ordered {
 		if r.On != "option" {
@@ -634,7 +634,7 @@ func c17Stacked(c c17Case) string {
 		bkey := find(strings.ToLower(r.Pkg + "/" + r.SelA))
 		if r.Kind == "rename" || r.Kind == "duplicate" {
 			for _, o := range r.SelOpts {
-				renamed[bkey+"/"+strings.ToLower(r.As)] = bkey + "/" + strings.ToLower(o)
+				renamed[bkey+"/"+strings.ToLower(r.As)] = append(renamed[bkey+"/"+strings.ToLower(r.As)], bkey+"/"+strings.ToLower(o))
 			}
 			continue
 		}
@@ -643,8 +643,13 @@ func c17Stacked(c c17Case) string {
 		}
 		for _, o := range r.SelOpts {
 			k := bkey + "/" + strings.ToLower(o)
-			if orig, ok := renamed[k]; ok {
-				k = orig
+			if origs, ok := renamed[k]; ok {
+				k = origs[0]
+				for _, orig := range origs {
+					if _, seen := byOption[orig]; seen {
+						k = orig // the one an earlier multiplicity rule rewrote
+					}
+				}
 			}
 			if prev, ok := producedNames[bkey]; ok {
 				if _, direct := byOption[k]; !direct {
